@@ -409,7 +409,8 @@ pub fn gen(ctx: &mut Ctx) {
                     put(ctx, format!("tsst20 loc {} {}", secs, frac));
                 }
                 // a leap-second reading on every wall-clock second that is a :59 (in the zone's own minutes)
-                for off in [0i32, 3600, -12_600, 20_700, -1521] {
+                // (offset 44 s puts a wall-clock :59 on the UTC second 2^32 - 1, offset -16 s on 2^32 + 15, …)
+                for off in [0i32, 3600, -12_600, 20_700, -1521, 44, -16, 1] {
                     if (secs + off as i64).rem_euclid(60) == 59 {
                         for extra in [0u32, 1, 999_999_999] {
                             put(ctx, cal_req("ymd", secs, NS + extra, off));
